@@ -90,16 +90,19 @@ fn main() {
             let bases = read_cases(&a[2]);
             let mut w = BufWriter::new(File::create(&a[3]).unwrap());
             let mut out = mux::Out { w: &mut w, events: 0 };
-            let (mut total, mut panics) = (0u64, 0u64);
+            let (mut total, mut panics, mut phases) = (0u64, 0u64, [0u64; 4]);
             for (i, b) in bases.iter().enumerate() {
-                let (t, p) = robust::run_base(i as u64, b, &mut out);
+                let (t, p, ph) = robust::run_base(i as u64, b, &mut out);
                 total += t;
                 panics += p;
+                for k in 0..4 {
+                    phases[k] += ph[k];
+                }
             }
             let n = out.events;
             drop(out);
             w.flush().unwrap();
-            println!("{{\"cases\":{},\"events\":{},\"panics\":{}}}", total, n, panics);
+            println!("{{\"cases\":{},\"events\":{},\"panics\":{},\"phases\":[{},{},{},{}]}}", total, n, panics, phases[0], phases[1], phases[2], phases[3]);
         }
         "fault-run" => {
             let cases = read_cases(&a[2]);
